@@ -396,12 +396,14 @@ def structure_checks(path, u, cu, dwarf, fails, labels):
 def run(ch):
     asm, secs, units, info = build(ch)
     dp = info['dp']
+    # the container's default address size (ELF class / 8) is not the units' business: every unit carries its own address_size
+    cdef = dp.addr if ch.pick('container_default_address_size', ['unit', 'other']) == 'unit' else 12 - dp.addr
     fails = []
     data = b'|'.join(secs[k] for k in sorted(secs))
     if asm.overflow:
         # a reference target beyond the reach of its fixed-width form (ref1 over 255 bytes...): no well-formed file has that
         return Case([], data, 'reference-overflow', nontrivial=False, envelope=False)
-    dw = guarded(dg.make_dwarfinfo, secs, dp.le, dp.addr)
+    dw = guarded(dg.make_dwarfinfo, secs, dp.le, cdef)
     if isinstance(dw, Raised):
         return Case([('DWARFInfo()', 'constructs', dw)], data, repr(dw))
     cus = guarded(lambda: list(dw.iter_CUs()))
@@ -417,7 +419,7 @@ def run(ch):
             outs.append(compare_unit('units[%d]' % i, u, cu, fails, info))
         if not fails:
             # navigation on fresh objects
-            dw2 = dg.make_dwarfinfo(secs, dp.le, dp.addr)
+            dw2 = dg.make_dwarfinfo(secs, dp.le, cdef)
             for i, (u, cu) in enumerate(zip(info_units, dw2.iter_CUs())):
                 structure_checks('units[%d]' % i, u, cu, dw2, fails, asm.ctx.labels)
             # parent of a DIE fetched by offset on a FRESH object (exercises the ancestor search, no cached links)
@@ -425,7 +427,7 @@ def run(ch):
                 for d in u.dies:
                     if d.abbrev is None or d.unit is not u or (d.parent is None and d is not u.root):
                         continue
-                    dw3 = dg.make_dwarfinfo(secs, dp.le, dp.addr)
+                    dw3 = dg.make_dwarfinfo(secs, dp.le, cdef)
                     g = guarded(lambda: (lambda x: None if x is None else x.offset)(dw3.get_DIE_from_refaddr(d.offset).get_parent()))
                     ep = d.parent.offset if d.parent is not None else None
                     if g != ep:
